@@ -157,15 +157,21 @@ class _HangSignal(BaseException):
 class time_limit(object):
     """Turn a hang of the code under test into a Violation.
 
-    Only used around calls whose normal cost is micro/milliseconds and with a limit >= 10^4 times
-    that cost, so that a correct implementation cannot hit it; a hit means the call does not
-    terminate (e.g. an unservable request loops forever instead of being rejected).
+    Only used around calls whose normal cost is micro/milliseconds to seconds and with a limit far above that cost, so that a
+    correct implementation cannot hit it; a hit means the call does not terminate (e.g. an unservable request loops forever
+    instead of being rejected).
+
+    The limit counts CPU seconds of THIS process (ITIMER_VIRTUAL), not wall-clock seconds: on a machine that other work keeps
+    busy a correct 40 s case once needed more than 120 s of wall time and was reported as a hang (a false alarm of the
+    thorough tier, DESIGN.md section 10).  A wall-clock timer at 20x the limit remains as a backstop for a hang that sleeps.
+    ``cpu=False`` keeps the plain wall-clock limit (used where the work is done by worker processes).
     """
 
-    def __init__(self, seconds, signature, what):
+    def __init__(self, seconds, signature, what, cpu=True):
         self.seconds = seconds
         self.signature = signature
         self.what = what
+        self.cpu = cpu
 
     def _handler(self, signum, frame):
         # a BaseException so that `except Exception` blocks inside the code under test do not swallow or re-wrap it
@@ -174,14 +180,22 @@ class time_limit(object):
     def __enter__(self):
         import signal
         self._old = signal.signal(signal.SIGALRM, self._handler)
-        signal.setitimer(signal.ITIMER_REAL, self.seconds)
+        if self.cpu:
+            self._oldv = signal.signal(signal.SIGVTALRM, self._handler)
+            signal.setitimer(signal.ITIMER_VIRTUAL, self.seconds)
+            signal.setitimer(signal.ITIMER_REAL, 20 * self.seconds)
+        else:
+            signal.setitimer(signal.ITIMER_REAL, self.seconds)
         return self
 
     def __exit__(self, et, ev, tb):
         import signal
         signal.setitimer(signal.ITIMER_REAL, 0)
+        if self.cpu:
+            signal.setitimer(signal.ITIMER_VIRTUAL, 0)
+            signal.signal(signal.SIGVTALRM, self._oldv if self._oldv is not None else signal.SIG_DFL)
         # a handler installed from C (libFuzzer/atheris) is reported as None and cannot be put back from Python
         signal.signal(signal.SIGALRM, self._old if self._old is not None else signal.SIG_DFL)
         if et is not None and issubclass(et, _HangSignal):
-            raise Violation(self.signature, '%s did not return within %ss' % (self.what, self.seconds))
+            raise Violation(self.signature, '%s did not return within %s %s seconds' % (self.what, self.seconds, 'CPU' if self.cpu else 'wall-clock'))
         return False
